@@ -387,3 +387,19 @@ pub fn grid_for(t: &VariableType) -> Vec<f64> {
 }
 
 pub fn model_text(m: &Model) -> String { m.to_string() }
+
+/// structural equality of compiled source models (objective, constraints in order with names, domains)
+pub fn model_eq(a: &Model, b: &Model) -> Result<(), String> {
+    if a.objective().objective_type != b.objective().objective_type { return Err("objective direction differs".into()); }
+    if !exp_eq(&a.objective().rhs, &b.objective().rhs) { return Err(format!("objective differs: `{}` vs `{}`", a.objective().rhs, b.objective().rhs)); }
+    if a.constraints().len() != b.constraints().len() { return Err(format!("{} vs {} constraints", a.constraints().len(), b.constraints().len())); }
+    for (x, y) in a.constraints().iter().zip(b.constraints()) {
+        if x.name() != y.name() || x.constraint_type() != y.constraint_type() || x.is_logic_assertion() != y.is_logic_assertion() || !exp_eq(x.lhs(), y.lhs()) || !exp_eq(x.rhs(), y.rhs()) {
+            return Err(format!("constraint differs: `{}` vs `{}`", x, y));
+        }
+    }
+    let da: Vec<(String, String)> = a.domain().iter().map(|(k, v)| (k.clone(), format!("{:?}/{}", v.get_type(), v.is_used()))).collect();
+    let db: Vec<(String, String)> = b.domain().iter().map(|(k, v)| (k.clone(), format!("{:?}/{}", v.get_type(), v.is_used()))).collect();
+    if da != db { return Err(format!("domains differ: {:?} vs {:?}", da, db)); }
+    Ok(())
+}
